@@ -99,10 +99,14 @@ OffsetPair(pos) ==
 (*                                                                         *)
 (* CS = [brokers: Seq([id, host, port]), controller: Int, down: Seq(Int),  *)
 (*       topics: Seq([name, parts: Seq([id, leader, replicas, isr, start,  *)
-(*                    end, ts, lerr, merr])]),                             *)
-(*       groups: Seq([id, coord, committed: Seq([t, p, off])])]            *)
-(* start/end: log start / log end offset; ts[o+1]: timestamp of the record *)
+(*                    end, lso, ts, lerr, merr])]),                        *)
+(*       groups: Seq([id, coord, gerr, committed: Seq([t, p, off])])]      *)
+(* start/end: log start / log end offset (= high watermark); lso: last     *)
+(* stable offset, start <= lso <= end (the records at lso..end-1 belong to *)
+(* transactions that are still open); ts[o+1]: timestamp of the record     *)
 (* at offset o (o in 0..end-1; records below start are deleted);           *)
+(* gerr: error code the coordinator answers to OffsetFetch / OffsetCommit  *)
+(* for the whole group (0: none; e.g. 14 GroupLoadInProgress);             *)
 (* lerr: error the leader answers when asked for this partition's offsets; *)
 (* lerrt: error it answers to lookups by timestamp (ts >= 0) only;         *)
 (* merr: error reported in the metadata of the partition;                  *)
@@ -121,13 +125,29 @@ PartIds(cs, t) == {TopicOf(cs, t).parts[i].id : i \in DOMAIN TopicOf(cs, t).part
 HasPart(cs, t, p) == HasTopic(cs, t) /\ p \in PartIds(cs, t)
 PartOf(cs, t, p) == LET ps == TopicOf(cs, t).parts IN ps[CHOOSE i \in DOMAIN ps : ps[i].id = p]
 
-\* ListOffsets semantics of the protocol: -1 = log end offset, -2 = log start offset, otherwise the
-\* first offset whose record timestamp is >= ts, -1 when there is none.
-OffsetAt(part, ts) ==
-  IF ts = LastOffset THEN part.end
+\* Isolation levels (conn.go: "ReadUncommitted makes all records visible. With ReadCommitted only non-transactional
+\* and committed records are visible"; ListOffsetsRequest.IsolationLevel "Defaults to ReadUncommitted").
+ReadUncommitted == 0
+ReadCommitted   == 1
+
+\* The offset up to which a reader of that isolation level can fetch: the last stable offset for a
+\* read_committed reader, the high watermark otherwise.
+LastFetchable(part, iso) == IF iso = ReadCommitted THEN part.lso ELSE part.end
+
+\* ListOffsets semantics of the protocol: -1 = last fetchable offset (log end offset / high watermark, or the
+\* last stable offset under read_committed), -2 = log start offset, otherwise the first fetchable offset whose
+\* record timestamp is >= ts, -1 when there is none.
+OffsetAt(part, ts, iso) ==
+  IF ts = LastOffset THEN LastFetchable(part, iso)
   ELSE IF ts = FirstOffset THEN part.start
-  ELSE LET S == {o \in part.start .. (part.end - 1) : part.ts[o + 1] >= ts}
+  ELSE LET S == {o \in part.start .. (LastFetchable(part, iso) - 1) : part.ts[o + 1] >= ts}
        IN  IF S = {} THEN -1 ELSE MinOf(S)
+
+\* The isolation level a ListOffsets request is served with: the field exists on the wire from version 2 of the
+\* API on (doc comment of ListOffsetsRequest.IsolationLevel: "This field requires the kafka broker to support the
+\* ListOffsets API in version 2 or above (otherwise the value is ignored)").  brokerMax: highest ListOffsets
+\* version the brokers speak.
+EffectiveIsolation(iso, brokerMax) == IF brokerMax >= 2 THEN iso ELSE ReadUncommitted
 
 \* What a broker answers when asked for offsets of (t, p): 0 or the error code.
 AskError(cs, t, p, broker) ==
@@ -173,6 +193,19 @@ GroupIds(cs) == {cs.groups[i].id : i \in DOMAIN cs.groups}
 GroupOf(cs, g) == cs.groups[CHOOSE i \in DOMAIN cs.groups : cs.groups[i].id = g]
 Committed(cs, g, t, p) == IF g \in GroupIds(cs) THEN CommittedIn(GroupOf(cs, g).committed, t, p) ELSE -1
 
+\* The error the coordinator answers to OffsetFetch / OffsetCommit of group g: 0 none.
+GroupError(cs, g) == IF g \in GroupIds(cs) THEN GroupOf(cs, g).gerr ELSE 0
+
+\* How a refused OffsetFetch must come back to the caller ("answers equal the cluster state or report the
+\* error"): the group-level error of the answer is the coordinator's code, or (OffsetFetch v0/v1 have no
+\* group-level field, the coordinator repeats the code on every partition) every partition asked for is listed
+\* with that code.  topErr: group-level error of the answer, perPart: set of <<t, p, err>> of the answer.
+RefusalReported(gerr, want, topErr, perPart) ==
+  \/ topErr = gerr
+  \/ /\ topErr = 0
+     /\ want # {}
+     /\ \A tp \in want : <<tp[1], tp[2], gerr>> \in perPart
+
 \* OffsetCommit: the committed offsets afterwards (later entries win).
 AfterCommit(committed, commits) == committed \o commits
 
@@ -181,10 +214,11 @@ AfterCommit(committed, commits) == committed \o commits
 (* (sanity of the definitions themselves, independent of any code).        *)
 (***************************************************************************)
 AnchorPart == [id |-> 0, leader |-> 1, replicas |-> <<1, 2>>, isr |-> <<1>>, start |-> 1, end |-> 4,
-               ts |-> <<10, 10, 20, 20>>, lerr |-> 0, merr |-> 0, lerrt |-> 0]
+               lso |-> 3, ts |-> <<10, 10, 20, 20>>, lerr |-> 0, merr |-> 0, lerrt |-> 0]
 AnchorCS == [brokers |-> <<[id |-> 1, host |-> "b1", port |-> 9092], [id |-> 2, host |-> "b2", port |-> 9092]>>, controller |-> 1, down |-> <<2>>,
              topics |-> << [name |-> "ta", parts |-> <<AnchorPart, [AnchorPart EXCEPT !.id = 1, !.leader = 2]>>] >>,
-             groups |-> << [id |-> "g", coord |-> 1, committed |-> << [t |-> "ta", p |-> 0, off |-> 3] >>] >>]
+             groups |-> << [id |-> "g", coord |-> 1, gerr |-> 0, committed |-> << [t |-> "ta", p |-> 0, off |-> 3] >>],
+                           [id |-> "r", coord |-> 1, gerr |-> 14, committed |-> << [t |-> "ta", p |-> 0, off |-> 2] >>] >>]
 
 ASSUME SeekResult(2, 1, SeekStart, FALSE, 1, 4) = NewOffset(2)
 ASSUME SeekResult(2, 1, SeekEnd, FALSE, 1, 4) = NewOffset(3)
@@ -203,13 +237,27 @@ ASSUME SeekResult(LastOffset, 0, SeekCurrent, FALSE, 1, 4) = NewOffset(4)
 ASSUME SeekResult(2, 0, 4, FALSE, 1, 4) = Refused(InvalidWhence)
 ASSUME SeekResult(2, 4, SeekStart, TRUE, 1, 4) = Refused(OffsetOutOfRange)
 ASSUME OffsetPair(FirstOffset) = <<0, SeekStart>> /\ OffsetPair(LastOffset) = <<0, SeekEnd>> /\ OffsetPair(3) = <<3, SeekAbsolute>>
-ASSUME OffsetAt(AnchorPart, -1) = 4 /\ OffsetAt(AnchorPart, -2) = 1
-ASSUME OffsetAt(AnchorPart, 10) = 1 /\ OffsetAt(AnchorPart, 11) = 2 /\ OffsetAt(AnchorPart, 20) = 2
-ASSUME OffsetAt(AnchorPart, 21) = -1 /\ OffsetAt(AnchorPart, 0) = 1
-ASSUME OffsetAt([AnchorPart EXCEPT !.start = 4], 0) = -1
+ASSUME OffsetAt(AnchorPart, -1, ReadUncommitted) = 4 /\ OffsetAt(AnchorPart, -2, ReadUncommitted) = 1
+ASSUME OffsetAt(AnchorPart, 10, ReadUncommitted) = 1 /\ OffsetAt(AnchorPart, 11, ReadUncommitted) = 2 /\ OffsetAt(AnchorPart, 20, ReadUncommitted) = 2
+ASSUME OffsetAt(AnchorPart, 21, ReadUncommitted) = -1 /\ OffsetAt(AnchorPart, 0, ReadUncommitted) = 1
+ASSUME OffsetAt([AnchorPart EXCEPT !.start = 4, !.lso = 4], 0, ReadUncommitted) = -1
+\* read_committed: the last stable offset (3) bounds what is reported; offset 3 (open transaction) is invisible
+ASSUME OffsetAt(AnchorPart, -1, ReadCommitted) = 3 /\ OffsetAt(AnchorPart, -2, ReadCommitted) = 1
+ASSUME OffsetAt(AnchorPart, 10, ReadCommitted) = 1 /\ OffsetAt(AnchorPart, 20, ReadCommitted) = 2
+ASSUME OffsetAt([AnchorPart EXCEPT !.lso = 2], 20, ReadCommitted) = -1 /\ OffsetAt([AnchorPart EXCEPT !.lso = 2], 20, ReadUncommitted) = 2
+ASSUME OffsetAt([AnchorPart EXCEPT !.lso = 1], -1, ReadCommitted) = 1 /\ OffsetAt([AnchorPart EXCEPT !.lso = 1], 0, ReadCommitted) = -1
+ASSUME OffsetAt([AnchorPart EXCEPT !.lso = 4], -1, ReadCommitted) = 4
+ASSUME EffectiveIsolation(ReadCommitted, 1) = ReadUncommitted /\ EffectiveIsolation(ReadCommitted, 2) = ReadCommitted
+ASSUME EffectiveIsolation(ReadCommitted, 5) = ReadCommitted /\ EffectiveIsolation(ReadUncommitted, 5) = ReadUncommitted
 ASSUME AskError(AnchorCS, "ta", 0, 1) = 0 /\ AskError(AnchorCS, "ta", 0, 2) = 6 /\ AskError(AnchorCS, "ta", 7, 1) = 3
 ASSUME RoutedFault(AnchorCS, "ta", 0) = 0 /\ RoutedFault(AnchorCS, "ta", 1) = -1 /\ RoutedFault(AnchorCS, "tz", 0) = 3
 ASSUME Committed(AnchorCS, "g", "ta", 0) = 3 /\ Committed(AnchorCS, "g", "ta", 1) = -1 /\ Committed(AnchorCS, "h", "ta", 0) = -1
+ASSUME GroupError(AnchorCS, "g") = 0 /\ GroupError(AnchorCS, "r") = 14 /\ GroupError(AnchorCS, "h") = 0
+ASSUME RefusalReported(14, {<<"ta", 0>>}, 14, {})
+ASSUME RefusalReported(14, {<<"ta", 0>>, <<"ta", 1>>}, 0, {<<"ta", 0, 14>>, <<"ta", 1, 14>>})
+ASSUME ~RefusalReported(14, {<<"ta", 0>>}, 0, {})
+ASSUME ~RefusalReported(14, {<<"ta", 0>>, <<"ta", 1>>}, 0, {<<"ta", 0, 14>>, <<"ta", 1, 0>>})
+ASSUME ~RefusalReported(14, {<<"ta", 0>>}, 16, {<<"ta", 0, 16>>})
 ASSUME CommittedIn(AfterCommit(<<[t |-> "ta", p |-> 0, off |-> 3]>>, <<[t |-> "ta", p |-> 0, off |-> 1]>>), "ta", 0) = 1
 ASSUME SeekOutcome(AnchorCS, "ta", 0, 1, 2, 1, SeekEnd, FALSE) = [err |-> 0, res |-> 3, pos |-> 3]
 ASSUME SeekOutcome(AnchorCS, "ta", 0, 2, 2, 1, SeekEnd, FALSE) = [err |-> 6, res |-> 0, pos |-> 2]
